@@ -1184,3 +1184,180 @@ impl Check for AcceptedNamesOutput {
         Some(NameOutCase { ident: j["ident"].as_str()?.to_string(), role: j["role"].as_u64()? as u8 })
     }
 }
+
+// ---------------------------------------------------------------------------------------
+// C14: acceptance must not depend on size in a way that printing can cross
+
+pub struct SizeBoundary;
+
+#[derive(Clone, Debug)]
+pub struct SizeCase {
+    pub template: u8,
+    pub max_rules: u32,
+}
+
+const COMPACT_RULES: [&str; 6] = [
+    "p(X,Y):-q(X),r(Y).",
+    "{s(X+1)}:-t(X),not u(X),X!=3.",
+    "v(1..3,a).",
+    ":-p(X,Y),not not q(X),X<Y.",
+    "w(X*2-1,Y/2):-p(X,Y),Y>0.",
+    "e(X,Y,Z):-p(X,Y),p(Y,Z),X!=Z,not e(Z,Y,X).",
+];
+
+fn repeated(template: &str, n: usize) -> String {
+    let mut s = String::with_capacity((template.len() + 1) * n);
+    for _ in 0..n {
+        s.push_str(template);
+        s.push('\n');
+    }
+    s
+}
+
+impl Check for SizeBoundary {
+    type Case = SizeCase;
+    fn name(&self) -> &'static str {
+        "size-boundary"
+    }
+    fn shards(&self) -> usize {
+        2
+    }
+    fn shrink_steps(&self) -> usize {
+        0
+    }
+    fn cases(&self, tier: Tier) -> usize {
+        tier.pick(2, 12)
+    }
+    fn strategy(&self, tier: Tier) -> BoxedStrategy<SizeCase> {
+        let top = tier.pick(20_000, 60_000) as u32;
+        (0u8..6, (top * 3 / 4)..top).prop_map(|(template, max_rules)| SizeCase { template, max_rules }).boxed()
+    }
+    fn rule(&self) -> String {
+        "a program of n copies of one compactly written rule (no blanks; 6 templates) for n up to 20 000 (thorough: 60 000) rules, about 1 MB: if the largest size is refused although small sizes are accepted, the largest accepted size is found by bisection; oracle: at the largest accepted size (and at the largest size tried when nothing is refused) the accepted program prints to text that is accepted again and reads back as the same tree - the printed form is longer than the compact source, so a size- or effort-limit in the reader must not sit between the two; non-trivial = every case; distinct by template + size".into()
+    }
+    fn run(&self, case: &SizeCase) -> Outcome {
+        let template = COMPACT_RULES[case.template as usize % COMPACT_RULES.len()];
+        let accepts = |n: usize| repeated(template, n).parse::<asp::Program>().ok();
+        if accepts(4).is_none() {
+            return Outcome::fail("size:template-rejected", format!("C14: the rule {template} is rejected"));
+        }
+        let top = case.max_rules as usize;
+        let mut label = "no-limit-found";
+        let (n, program) = match accepts(top) {
+            Some(p) => (top, p),
+            None => {
+                // a limit exists: largest accepted size by bisection
+                label = "limit-found";
+                let (mut lo, mut hi) = (4usize, top);
+                while hi - lo > 1 {
+                    let mid = (lo + hi) / 2;
+                    if accepts(mid).is_some() { lo = mid } else { hi = mid }
+                }
+                (lo, accepts(lo).expect("accepted a moment ago"))
+            }
+        };
+        let printed = program.to_string();
+        match printed.parse::<asp::Program>() {
+            Ok(back) if back == program => Outcome::pass(true, hash64(&format!("{template}|{n}"))).label(label).label(format!("template={}", case.template % 6)),
+            Ok(_) => Outcome::fail("size:tree-changed", format!("C14: {n} copies of `{template}` are accepted, the printed program reads back as a different tree")),
+            Err(e) => Outcome::fail(
+                "size:reparse-rejected",
+                format!("C14: {n} copies of `{template}` ({} bytes) are accepted, but the printed program ({} bytes) is rejected: {}", repeated(template, n).len(), printed.len(), e.to_string().chars().take(200).collect::<String>()),
+            ),
+        }
+    }
+    fn describe(&self, case: &SizeCase) -> Value {
+        json!({"template": case.template, "max_rules": case.max_rules})
+    }
+    fn from_replay(&self, j: &Value) -> Option<SizeCase> {
+        Some(SizeCase { template: j["template"].as_u64()? as u8, max_rules: j["max_rules"].as_u64()? as u32 })
+    }
+}
+
+// ---------------------------------------------------------------------------------------
+// C15: the output of translate on larger programs, fed back through the binary
+
+pub struct LargeOutputs;
+
+#[derive(Clone, Debug)]
+pub struct LargeCase {
+    pub rules: Vec<asp::Rule>,
+    pub transform: u8,
+}
+
+impl Check for LargeOutputs {
+    type Case = LargeCase;
+    fn name(&self) -> &'static str {
+        "large-outputs"
+    }
+    fn shards(&self) -> usize {
+        4
+    }
+    fn shrink_steps(&self) -> usize {
+        12
+    }
+    fn cases(&self, tier: Tier) -> usize {
+        tier.pick(24, 400)
+    }
+    fn strategy(&self, _tier: Tier) -> BoxedStrategy<LargeCase> {
+        let c = out_cfg();
+        // sizes spread over 16 .. 600 rules
+        (prop_oneof![vec(ga::shaped_rule(&c), 16..60), vec(ga::shaped_rule(&c), 60..200), vec(ga::shaped_rule(&c), 200..600)], 0u8..3)
+            .prop_map(|(rules, transform)| LargeCase { rules, transform })
+            .boxed()
+    }
+    fn rule(&self) -> String {
+        "a generated program of 16-600 rules is given to the real binary: `translate --with tau-star|mu|natural`, then the printed theory to `parse --as theory --output default` and to `translate --with gamma`; oracle: whatever translate printed (exit 0) is accepted again by both commands, and the re-printed theory is the same text - the output is several times longer than the input, so no limit of the reader may sit between the two; non-trivial = the translation succeeded; distinct by program + translation".into()
+    }
+    fn run(&self, case: &LargeCase) -> Outcome {
+        let Some(bin) = crate::cli::anthem_bin() else {
+            return Outcome::skip("ANTHEM_BIN not set");
+        };
+        let program = asp::Program { rules: case.rules.clone() };
+        let text = sp::asp_program(&program, &Style::plain());
+        let with = ["tau-star", "mu", "natural"][case.transform as usize % 3];
+        let first = crate::cli::run(&bin, &["translate", "--with", with], Some(&text));
+        if first.timed_out {
+            return Outcome::skip("translate did not finish in time");
+        }
+        if first.code != Some(0) {
+            // natural refuses irregular programs; a program the reader refuses is C14's business
+            return Outcome::skip("translation refused the program");
+        }
+        for cmd in [vec!["parse", "--as", "theory", "--output", "default"], vec!["translate", "--with", "gamma"]] {
+            let r = crate::cli::run(&bin, &cmd, Some(&first.stdout));
+            if r.timed_out {
+                return Outcome::skip("a run did not finish in time");
+            }
+            if r.code != Some(0) {
+                return Outcome::fail(
+                    "large-output-rejected",
+                    format!(
+                        "C15: `anthem translate --with {with}` on a program of {} rules ({} bytes) printed {} bytes that `anthem {}` rejects (exit {:?})\n  stderr: {}\n  program starts: {}",
+                        case.rules.len(),
+                        text.len(),
+                        first.stdout.len(),
+                        cmd.join(" "),
+                        r.code,
+                        r.stderr.chars().take(300).collect::<String>(),
+                        text.chars().take(300).collect::<String>()
+                    ),
+                );
+            }
+            if cmd[0] == "parse" && r.stdout != first.stdout {
+                return Outcome::fail(
+                    "large-output-not-stable",
+                    format!("C15: the output of `translate --with {with}` on a program of {} rules is re-printed differently by `parse --as theory`\n  program starts: {}", case.rules.len(), text.chars().take(300).collect::<String>()),
+                );
+            }
+        }
+        Outcome::pass(true, hash64(&format!("{text}|{with}"))).label(format!("with={with}")).label(format!("rules>={}", if case.rules.len() >= 200 { 200 } else if case.rules.len() >= 60 { 60 } else { 16 }))
+    }
+    fn describe(&self, case: &LargeCase) -> Value {
+        json!({"program": sp::asp_program(&asp::Program { rules: case.rules.clone() }, &Style::plain()), "transform": case.transform})
+    }
+    fn from_replay(&self, j: &Value) -> Option<LargeCase> {
+        let p: asp::Program = j["program"].as_str()?.parse().ok()?;
+        Some(LargeCase { rules: p.rules, transform: j["transform"].as_u64()? as u8 })
+    }
+}
